@@ -26,8 +26,8 @@ PLAN = {
                 thorough=[("rt", "release", 1500000), ("rawrt", "release", 400000), ("sizes", "release", 150000)],
                 assumptions=["frame boundaries come from refflac"]),
     "C17": dict(level="exploration", rule=RT_RULE,
-                quick=[("rt", "release", 30000), ("dmg", "release", 150), ("dmgcat", "release", 150), ("synth", "release", 20000), ("bent", "release", 12000), ("dmggen", "release", 80), ("sizes", "release", 2000)],
-                thorough=[("rt", "release", 1000000), ("dmg", "release", 4000), ("dmgcat", "release", 4000), ("synth", "release", 1500000), ("synth", "checked", 200000), ("bent", "release", 1000000), ("bent", "checked", 200000), ("dmggen", "release", 2000), ("sizes", "release", 100000)],
+                quick=[("rt", "release", 30000), ("dmg", "release", 150), ("dmgcat", "release", 150), ("synth", "release", 20000), ("bent", "release", 12000), ("dmggen", "release", 80), ("sizes", "release", 2000), ("c17gen", "release", 6000)],
+                thorough=[("rt", "release", 1000000), ("dmg", "release", 4000), ("dmgcat", "release", 4000), ("synth", "release", 1500000), ("synth", "checked", 200000), ("bent", "release", 1000000), ("bent", "checked", 200000), ("dmggen", "release", 2000), ("sizes", "release", 100000), ("c17gen", "release", 300000), ("c17gen", "checked", 30000)],
                 assumptions=[]),
     "C13": dict(level="fault_enumeration", supplement="sysfault",
                 rule=("each run draws one transaction (encode+finalize through a writer front-end on a raw / caller-buffered / "
@@ -360,6 +360,7 @@ EXPECT = {
   "write_ended_inside_pcm_frame"
  ],
  "C14": [
+  "c14_more_than_32_frames",
   "c14_byte_granularity",
   "c14_crash_in_metadata",
   "c14_crash_inside_frame",
@@ -403,6 +404,9 @@ EXPECT = {
   "c16_sync_split_across_refill"
  ],
  "C17": [
+  "rd_depth_coded_as_see_streaminfo",
+  "rd_block_sizes_from_code_table",
+  "rd_variable_block_size_stream",
   "sizes_block_size_table_neighbourhood",
   "sizes_final_frame_length_from_table_neighbourhood",
   "dmg_generator_made_file",
